@@ -41,7 +41,7 @@ DSPALL = sorted(set(DSP3 + DSP2 + ['sp', 'nl', 'mo', 'mc']))
 FAULTS = ['Fim', 'FimE', 'Fdm', 'FdmE', 'FeqE', 'FargE', 'FoptE', 'FvbE', 'FveE', 'Fsk', 'Facc', 'FaccD', 'FaccI', 'Flt']
 FLT2 = ['ltE', 'ltD', 'uA', 'a', 'b', 'sp', 'nl', 'cm', 'lb', 'uk', 'ob', 'cb', 'fn', 'sec', 'im', 'add', 'it', 'bi', 'ei', 'vb', 'vbd', 'vbb', 'tie', 'skb', 'ske', 'q', 'mo', 'mc', 'my', 'bd', 'ed'] + FAULTS
 EXTR = ['alt', 'acb', 'a', 'b', 'sp', 'nl', 'fn', 'xo', 'cap', 'cb', 'uk', 'ob', 'sec', 'add', 'tc', 'cmf', 'cm', 'skb', 'ske', 'q', 'fnq', 'bl', 'el', 'im', 'ref', 'lb', 'par', 'bi', 'ei', 'it']
-UNKN = ['ntm', 'bth', 'eth', 'hsu', 'phu', 'a', 'sp', 'uk', 'uk2', 'bu', 'eu', 'xo', 'cb', 'ob', 'fn', 'sec', 'add', 'tc', 'cmu', 'skb', 'ske', 'q', 'mo', 'mc', 'mal', 'my', 'bd', 'ed', 'dA', 'uA', 'dB', 'uB', 'uC', 'dC', 'lb', 'it', 'bi', 'ei', 'vb']
+UNKN = ['muk', 'ntm', 'bth', 'eth', 'hsu', 'phu', 'a', 'sp', 'uk', 'uk2', 'bu', 'eu', 'xo', 'cb', 'ob', 'fn', 'sec', 'add', 'tc', 'cmu', 'skb', 'ske', 'q', 'mo', 'mc', 'mal', 'my', 'bd', 'ed', 'dA', 'uA', 'dB', 'uB', 'uC', 'dC', 'lb', 'it', 'bi', 'ei', 'vb']
 COPY = ['acc', 'tbs', 'itl', 'ilc', 'bi', 'ei', 'a', 'b', '.', 'sp', 'nl', 'cm', 'ob', 'cb', 'uk', 'add', 'fbx', 'tc', 'fn', 'cap', 'vb', 'vbd', 'vbb', 'tie', 'nd', 'md', 'lq', 'rq',
         'thin', 'pct', 'amp', 'dol', 'hsh', 'usc', 'lbr', 'rbr', 'lb', 'sec', 'im']
 PROSE = ['gle', 'vbd', 'vbb', 'fct', 'ntm', 'bth', 'eth', 'itl', 'ilc', 'bp', 'ep', 'bt', 'et', 'tamp', 'tbsl', 'capo', 'seco', 'hsu', 'phu', 'alt', 'acb', 'ltD', 'uA', 'up', 'cto', 'ctc', 'a', 'b', '!', 'sp', 'nl', 'cm', 'uk', 'uk2', 'ob', 'cb', 'add', 'tc', 'fn', 'cap', 'sec', 'sub', 'bi', 'ei', 'be', 'ee', 'it',
@@ -87,7 +87,8 @@ CONFIG = {
                 thorough=[(EXTR, 5, 3), (['a', 'sp', 'fn', 'xo', 'cb', 'uk', 'ob', 'cmf', 'sec'], 7, 3)],
                 sim=(EXTR, 300, 3000), variants=[{'extr': 'footnote,xfoo,LTalter'}], mode='extr'),
     'C19': dict(key='c19', focus={'uk', 'uk2', 'bu', 'xo', 'uA', 'uB', 'uC', 'mal', 'cmu'},
-                quick=[(UNKN, 3, 2), (['hsu', 'phu', 'a', 'uk', 'uk2', 'bu', 'eu', 'fn', 'cb', 'mo', 'mal', 'my', 'mc', 'cmu', 'skb', 'ske', 'uB', 'dB'], 4, 2)],
+                quick=[(UNKN, 3, 2), (['hsu', 'phu', 'a', 'uk', 'uk2', 'bu', 'eu', 'fn', 'cb', 'mo', 'mal', 'my', 'mc', 'cmu', 'skb', 'ske', 'uB', 'dB'], 4, 2),
+                       (['a', 'sp', 'uk', 'mo', 'muk', 'mc', 'my', 'bd', 'ed', 'uk2'], 5, 1)],
                 thorough=[(UNKN, 4, 3), (['a', 'uk', 'uk2', 'bu', 'eu', 'fn', 'cb', 'mo', 'mal', 'my', 'mc', 'cmu', 'skb', 'ske', 'uB', 'dB'], 6, 2)],
                 sim=(UNKN, 300, 3000), variants=[{'unkn': True}, {'unkn': True, 'pack': '*'}, {'unkn': True, 'repl': ['foo & zzz', 'unk & a b', 'bar mb & x']}]),
     'C05': dict(key='c05', focus={'sp', 'nl', 'cm', 'tab', 'par', 'bm', 'bl', 'skb', 'lb', 'uk'},
@@ -111,6 +112,26 @@ def project(rec):
 
 
 DEFSYMS = {'rA', 'dA', 'dB', 'dC', 'dD', 'dE', 'dF', 'dG', 'rB', 'dH'}
+
+
+def drive_list_unknown(case):
+    """the shell's --list-unknown on several files at once: one section '=== file ===' per file that has unknowns"""
+    import re
+    from harness import shelldrv
+    files = {'f%d.tex' % k: chars.dec(d['src']) for k, d in enumerate(case['docs'])}
+    r = shelldrv.run_shell(files, ['--list-unknown', '--packages', OPTS['pack']] + sorted(files))
+    recs = []
+    secs = {}
+    parts = re.split(r'^=== (f\d+\.tex) ===\n', r['stdout'], flags=re.M)
+    for j in range(1, len(parts) - 1, 2):
+        secs[parts[j]] = parts[j + 1]           # the raw text between two headers
+    for k, d in enumerate(case['docs']):
+        name = 'f%d.tex' % k
+        txt = secs[name] if name in secs else '\n'        # a file without section: an empty list
+        recs.append({'id': '%s.%d' % (case['id'], k), 'doc': d['doc'], 'src': d['src'], 'plain': chars.enc(txt), 'map': [], 'opts': {'unkn': True},
+                     'outcome': 'returned' if r['exit'] == 0 and 'Traceback' not in r['stderr'] else 'shell-exit-%s' % r['exit'],
+                     'files_of_the_call': [''.join(x['src']) for x in case['docs']], 'stderr': r['stderr'][-300:]})
+    return recs
 
 
 def drive_chunk(chunk):
@@ -272,6 +293,25 @@ def run(prop, tier, seed, replay=None):
     if prop == 'C02' and not replay:
         from checks import replace
         replace.doc_phase(c, tier, beh)
+    if prop == 'C19' and not replay:
+        # the shell route: --list-unknown with three files per call (a file without unknowns must not end the report)
+        docs = [r for r in ok if str(r['id']).endswith('.0') or '.' not in str(r['id'])]
+        c.rng.shuffle(docs)
+        docs = docs[:300 if tier == 'quick' else 6000]
+        groups = [dict(id='lu%d' % (i // 3), docs=[{'doc': d['doc'], 'src': d['src']} for d in docs[i:i + 3]]) for i in range(0, len(docs) - 2, 3)]
+        srecs = []
+        for lst in c.drive(groups, drive_list_unknown, chunksize=2):
+            srecs += lst
+        sok = [r for r in srecs if r['outcome'] == 'returned']
+        for r in srecs:
+            if r['outcome'] != 'returned':
+                c.violation(r, 'list-unknown:' + r['outcome'])
+        sv = c.validate('Obs: sections of the shell report --list-unknown', 'Obs', sok, project=project)
+        for r in sok:
+            v = sv[r['id']]
+            if v.get('bind') == 'ok' and v.get('c19', 'ok') not in ('ok', 'skipped'):
+                c.violation(r, 'list-unknown:' + v['c19'], extra={'files': r['files_of_the_call'], 'section': chars.dec(r['plain'])})
+        c.extra['list_unknown_files'] = len(sok)
     if prop == 'C18' and not replay:
         from checks import include18
         include18.phase(c, tier)
